@@ -79,3 +79,20 @@ package geom
 
 //@ func LineString.InterpolatePoint
 //@   ensures result.coords.Type == s.seq.ctype && (result.full <==> NPts(s.seq) > 0)
+
+// Ramer-Douglas-Peucker: every index into the sequence is in range for every threshold (negative and NaN included),
+// only dst is written, and what is appended is a whole number of points
+//@ func ramerDouglasPeucker
+//@   requires SeqInv(seq)
+//@   modifies dst
+//@   ensures len(result) >= len(dst) && (len(result) - len(dst)) % Dim(seq.ctype) == 0
+//@   loop 0 invariant 0 <= start && start <= end && end == NPts(seq) - 1 && len(dst) >= len(old(dst)) && ((cap(old(dst)) > 0 && region(dst) == region(old(dst)) && offset(dst) == offset(old(dst))) || fresh(dst) || (cap(old(dst)) == 0 && cap(dst) == 0)) && (len(dst) - len(old(dst))) % Dim(seq.ctype) == 0
+//@   loop 1 invariant 0 <= start && start <= end && end == NPts(seq) - 1 && len(dst) >= len(old(dst)) && ((cap(old(dst)) > 0 && region(dst) == region(old(dst)) && offset(dst) == offset(old(dst))) || fresh(dst) || (cap(old(dst)) == 0 && cap(dst) == 0)) && (len(dst) - len(old(dst))) % Dim(seq.ctype) == 0 && 0 <= newEnd && newEnd <= end
+//@   loop 2 invariant 0 <= start && start <= end && end == NPts(seq) - 1 && len(dst) >= len(old(dst)) && ((cap(old(dst)) > 0 && region(dst) == region(old(dst)) && offset(dst) == offset(old(dst))) || fresh(dst) || (cap(old(dst)) == 0 && cap(dst) == 0)) && (len(dst) - len(old(dst))) % Dim(seq.ctype) == 0 && 0 <= newEnd && newEnd <= end && start + 1 <= i && 0 <= maxDistIdx && maxDistIdx <= end
+//@ func LineString.Simplify
+//@   ensures result.seq.ctype == s.seq.ctype
+//@ func MultiLineString.Simplify
+//@   ensures result.ctype == m.ctype && len(result.lines) <= len(m.lines)
+//@   loop 0 invariant MLSInv(m)
+//@   loop 0 invariant 0 <= i && i <= n && n == len(m.lines) && len(lss) <= i && cap(lss) >= n && (cap(lss) == 0 || (offset(lss) == 0 && fresh(lss)))
+//@   loop 0 invariant forall k :: 0 <= k && k < len(lss) ==> LSInv(lss[k]) && lss[k].seq.ctype == m.ctype
